@@ -90,7 +90,7 @@ var ProfileC02 = &Profile{
 }
 
 var ProfileC06 = &Profile{
-	ID: "C06", Name: "lending", MinBlocks: 5, MaxBlocks: 40, MaxTxs: 5, Spec: specDefault, Check: CheckC06,
+	ID: "C06", Name: "lending", MinBlocks: 5, MaxBlocks: 40, MaxTxs: 5, Spec: specLending, Check: CheckC06,
 	Weights: map[string]int{"stablestake.bond": 12, "stablestake.unbond": 8, "leveragelp.open": 14, "leveragelp.close": 10, "leveragelp.close_positions": 4,
 		"leveragelp.update_stop_loss": 2, "leveragelp.claim_rewards": 1, "oracle.feed_price": 8, "amm.swap_in": 4, "amm.join": 2, "amm.exit": 2, "masterchef.claim": 1},
 	Gaps: []time.Duration{time.Second, 5 * time.Second, 6 * time.Second, time.Hour + time.Second, 3 * time.Hour, 24*time.Hour + time.Second, 8 * 24 * time.Hour},
@@ -101,7 +101,7 @@ var ProfileC06 = &Profile{
 }
 
 var ProfileC08 = &Profile{
-	ID: "C08", Name: "leveragelp", MinBlocks: 5, MaxBlocks: 40, MaxTxs: 5, Spec: specDefault, Check: CheckC08,
+	ID: "C08", Name: "leveragelp", MinBlocks: 5, MaxBlocks: 40, MaxTxs: 5, Spec: specLending, Check: CheckC08,
 	Weights: map[string]int{"stablestake.bond": 8, "stablestake.unbond": 4, "leveragelp.open": 16, "leveragelp.close": 12, "leveragelp.close_positions": 6,
 		"leveragelp.update_stop_loss": 4, "leveragelp.claim_rewards": 2, "oracle.feed_price": 10, "amm.swap_in": 4, "amm.swap_out": 2, "amm.join": 2, "amm.exit": 2},
 	Rule: "history with >=1 forced close (position gone without an owner close tx) and >=1 partial close and >=1 consolidating open",
@@ -282,7 +282,7 @@ var ProfileC04 = &Profile{
 }
 
 var ProfileC07 = &Profile{
-	ID: "C07", Name: "vault-chain", MinBlocks: 5, MaxBlocks: 40, MaxTxs: 5, Spec: specDefault, Check: CheckC07Chain,
+	ID: "C07", Name: "vault-chain", MinBlocks: 5, MaxBlocks: 40, MaxTxs: 5, Spec: specLending, Check: CheckC07Chain,
 	Weights: withWeights(ProfileC06.Weights, map[string]int{"stablestake.bond": 14, "stablestake.unbond": 12, "leveragelp.open": 16}),
 	Gaps:    ProfileC06.Gaps,
 	Rule:    "history in which the vault share value had a long fractional part while lenders bonded and unbonded and a loan was granted",
@@ -317,4 +317,24 @@ var ProfileC10 = &Profile{
 	NonTrivial: func(h *History) bool {
 		return h.Labels["c10-lp-forced-close-eligible"]+h.Labels["c10-mtp-forced-close-eligible"] > 0 && h.Labels["c10-named-but-untouched"] > 0
 	},
+}
+
+// specLending: default world plus a generated (validated) leveragelp parameter set: the begin-block
+// sweep touches every position every block by default, which materialises interest before any tx of
+// the block runs; with the sweep off / narrow / sparse, lazy accrual inside transactions is exercised.
+func specLending(t *rapid.T) WorldSpec {
+	spec := specDefault(t)
+	lp := lptypes.DefaultParams()
+	switch UniformDraw(t, "lpsweep", 4) {
+	case 1:
+		lp.FallbackEnabled = false
+	case 2:
+		lp.NumberPerBlock = 1
+	case 3:
+		lp.EpochLength = 7
+	}
+	if err := lp.Validate(); err == nil {
+		spec.GovMsgs = append(spec.GovMsgs, govJSON(&lptypes.MsgUpdateParams{Authority: GovAddr(), Params: &lp}))
+	}
+	return spec
 }
